@@ -70,7 +70,8 @@ seq_t dtw_distance{{ suffix }}{{ suffix2 }}(seq_t *s1, idx_t l1,
         }
         {%- if "euclidean" == inner_dist %}
         {%- else %}
-        max_dist = pow(max_dist, 2);
+        // Squaring the square root can end up just below the exact sum, relax by a few ulp
+        max_dist = pow(max_dist, 2) * (1 + 4 * DBL_EPSILON);
         {%- endif %}
     } else if (max_dist == 0) {
         max_dist = INFINITY;
